@@ -18,7 +18,9 @@ Inductive xop :=
 | XSet (k : key) (v : cval) (m : Z)
 | XAdv (dt : Z)       (* seconds; node / cluster level: that many (Advance 1; Tick) *)
 | XFault (nd : option nat) (g s d : bool)
-| XCorrupt (k : key) (g : nat) (ttl : Z).
+| XCorrupt (k : key) (g : nat) (ttl : Z)
+| XQRowC (id : nat)   (* QueryRow with an already cancelled context *)
+| XQIdxC (i : nat).   (* QueryRowIndex with an already cancelled context *)
 
 Record oobs := mkobs { o_res : rres; o_q : nat; o_dump : list (nat * key * (cval * Z)) }.
 
@@ -67,6 +69,8 @@ Definition expand (c : case) (o : xop) : list cop :=
   | XFault None g s d => [COp (Fault g s d)]
   | XFault (Some j) g s d => [CFault j g s d]
   | XCorrupt k g ttl => [COp (Corrupt k g ttl)]
+  | XQRowC id => [COp (QueryCancelled (PK id))]
+  | XQIdxC i => [COp (QueryCancelled (IX i))]
   end.
 
 (* run the expansion; the result is that of the last step *)
@@ -265,6 +269,8 @@ Definition spec_step (c : case) (s : sst) (o : xop) (ob : oobs) : bool * sst :=
   | XFault (Some j) g s' d =>
       (same_q, fin (mkS (s_t s) (upd j (g, s', d) (s_f s)) (s_now s) (s_tick s) (s_taint s) (s_shield s) (s_q s) (s_dump s) (s_arms s)))
   | XCorrupt k g ttl => (same_q, fin (clear_shield s k))
+  (* a read under a cancelled context returns the context error and does not run the query, cached or not *)
+  | XQRowC _ | XQIdxC _ => (rres_eqb (o_res ob) RCtxErr && same_q && ttl_ok c false s (o_dump ob), fin s)
   end.
 
 Fixpoint spec_rows (c : case) (s : sst) (ops : list xop) (obs : list oobs) : bool * sst :=
@@ -362,11 +368,31 @@ Definition memn (x : nat) (l : list nat) : bool := existsb (Nat.eqb x) l.
 Definition deln (x : nat) (l : list nat) : list nat := filter (fun y => negb (Nat.eqb x y)) l.
 Definition dbv (s : cst) (k : nat) : nat := match alookup Nat.eqb k (x_db s) with Some v => v | None => 0 end.
 
+(* readers whose context is cancelled before they are started *)
+Fixpoint precancelled (sched : list clbl) (cancelled : list nat) : list nat :=
+  match sched with
+  | [] => []
+  | LCancel t :: r => precancelled r (t :: cancelled)
+  | LStart t :: r => if memn t cancelled then t :: precancelled r cancelled else precancelled r cancelled
+  | _ :: r => precancelled r cancelled
+  end.
+
+(* was thread t started while no other thread of its key was inside a call? *)
+Fixpoint started_alone (c : case) (t : nat) (es : list oev) (active : list nat) : bool :=
+  match es with
+  | [] => false
+  | OStart u k :: r =>
+      if Nat.eqb u t then negb (existsb (fun v => Nat.eqb (key_of_thread c v) k) active)
+      else started_alone c t r (u :: active)
+  | ORet u :: r => started_alone c t r (deln u active)
+  | _ :: r => started_alone c t r active
+  end.
+
 Definition cspec_step (c : case) (s : cst) (e : oev) : bool * cst :=
   match e with
   | OEv (EQBegin t k) =>
-      (* at most one database query in flight per key *)
-      (negb (memn k (x_fl s)),
+      (* at most one database query in flight per key; none at all under a context cancelled beforehand *)
+      (negb (memn k (x_fl s)) && negb (memn t (precancelled (c_sched c) [])),
        mkcs (k :: x_fl s) (x_db s) (x_stale s) (x_active s) (aset Nat.eqb t false (x_wsince s)) (x_expect s))
   | OEv (EQEnd t k) => (true, mkcs (deln k (x_fl s)) (x_db s) (x_stale s) (x_active s) (x_wsince s) (x_expect s))
   | OEv (ESet t k v) =>
@@ -418,6 +444,11 @@ Definition spec_ok_conc (c : case) : bool :=
              | Some None => memn (key_of_thread c t) (cancelled_keys c)
              | Some (Some v) => Nat.eqb v 0 || memn v (written_vals c (key_of_thread c t))
              end) (seq 0 (List.length (c_threads c))) &&
+  (* a reader started under an already cancelled context gets the context error -- unless it joined the flight
+     of a call of its key that was already under way: then it shares that call's result without any cache read
+     of its own (and still never queries: see EQBegin above) *)
+  forallb (fun t => if is_writer c t || negb (started_alone c t (c_events c) []) then true else
+             match nth t (c_cres c) None with Some None => true | _ => false end) (precancelled (c_sched c) []) &&
   (* the database is shielded: without writes and cancellations a key is queried at most once *)
   forallb (fun k => if has_writer c k || memn k (cancelled_keys c) then true else Nat.leb (qbegins c k) 1)
           (seq 0 (List.length (c_cdb c))).
